@@ -162,6 +162,11 @@ def _governed_end(text, m, i):
                     k += 1
                 if k < n and text[k] == ',':
                     return k + 1
+                # match arm pattern with braces: `Pat { .. } => body,`
+                mm_arrow = re.match(r'\s*=>', text[e:])
+                if mm_arrow:
+                    j = e + mm_arrow.end()
+                    continue
                 # `if cond {..} else {..}`
                 mm = re.match(r'\s*else\b', text[e:])
                 if mm:
